@@ -156,6 +156,8 @@ STRUCTS = {
     "two-chains": lambda r: fixtures.peptide_lines([r, "ALA", "GLY"], "A") + fixtures.peptide_lines(["SER", r], "B", origin=(0.0, 15.0, 0.0), serial0=200),
     "hidden-chain-end": lambda r: _hidden(r),
     "protonated-input-no-elements": lambda r: _protonated(r),
+    # a free amino acid as its own chain (chain A is long enough for the two missing OXT atoms to stay below the 10 % repair threshold, C03-F1)
+    "single-residue-chain": lambda r: fixtures.peptide_lines(["ALA", r, "ALA", "ALA", "ALA", "GLY"], "A") + fixtures.peptide_lines([r], "B", origin=(0.0, 15.0, 0.0), serial0=200),
     "with-water": lambda r: fixtures.peptide_lines([r, "ALA", r]) + fixtures.residue_lines("WAT", "A", 30, serial0=300, offset=(0.0, 9.0, 2.0), record="HETATM") + ["TER"],
 }
 
@@ -184,7 +186,8 @@ def _run(lines, neutraln, neutralc):
     args = fixtures.Args(ff="parse", pka_method=None, debump=True, opt=True, neutraln=neutraln, neutralc=neutralc)
     r = main.non_trivial(args, bm, None, defn, False)
     per_res = [(f"{x.name}{x.chain_id}{x.res_seq}", round(x.charge, 4), bool(getattr(x, "is_n_term", 0)), bool(getattr(x, "is_c_term", 0)), len(x.atoms), str(getattr(x, "ffname", ""))) for x in bm.residues]
-    return per_res, len(r["missed_residues"])
+    # unassigned atoms of NON-terminal residues (terminal residues may legitimately gain / lose atoms with the options)
+    return per_res, len([a for a in r["missed_residues"] if not (getattr(a.residue, "is_n_term", 0) or getattr(a.residue, "is_c_term", 0))])
 
 
 def table_neutral(residues, structs):
@@ -210,7 +213,8 @@ def table_neutral(residues, structs):
                 c_neutral = sum(1 for x in got if x[3] and x[5].startswith("NEUTRAL-C"))
                 want = -1.0 * n_neutral + 1.0 * c_neutral
                 # the option must act on every terminus the force field has a neutral form for (all but N-terminal PRO under PARSE)
-                lazy = [x[0] for x in got if (nn and x[2] and not x[5].startswith("NEUTRAL-N") and not x[0].startswith("PRO")) or (nc and x[3] and not x[5].startswith("NEUTRAL-C"))]
+                # (a residue that is both termini - a free amino acid - has one parameter set only: no neutral form for the pair)
+                lazy = [x[0] for x in got if not (x[2] and x[3]) and ((nn and x[2] and not x[5].startswith("NEUTRAL-N") and not x[0].startswith("PRO")) or (nc and x[3] and not x[5].startswith("NEUTRAL-C")))]
                 if lazy:
                     violations.append({"label": "terminus-neutralised", "values": case, "reproduced": True, "replay_detail": f"termini not neutralised although requested: {lazy}"})
                 stray = [x[0] for x in got if (x[5].startswith("NEUTRAL-N") and not nn) or (x[5].startswith("NEUTRAL-C") and not nc)]
@@ -246,6 +250,7 @@ def obligations(tier):
     wk = ["water-in-atom-record", "hetatm-water", "hetatm-water-serial-10000", "atom-new-residue", "hetatm-ligand", "TER"]
     for k in range(len(wk)):
         obs.append(Obligation(f"drop-water-first={wk[k]}", c07.h_records, dict(nlines=3, kinds=wk, models="plain", drop=True, first=k), group="records", time_cap=1500, max_paths=100000))
+    obs += c07._drop_name_obligations()  # --drop-water removes water records only (symbolic residue name)
     res = ["ALA", "GLY", "PRO", "LYS"] if tier == "quick" else ["ALA", "ARG", "ASP", "CYS", "GLU", "GLY", "HIS", "LYS", "PRO", "SER", "TYR"]
     for s in STRUCTS:
         obs.append(Obligation(f"neutral-termini-{s}", table_neutral, dict(residues=res if s == "tripeptide" else res[:2], structs=[s]), kind="table", group="neutral-termini"))
